@@ -446,13 +446,7 @@ pub fn run(ctx: &Ctx) -> i32 {
     });
     // two inputs just under 2 MiB (TOML detection from a reader is capped there)
     {
-        let mut big = String::from("# big\n");
-        while big.len() < (2 << 20) - 64 {
-            big.push_str("k = \"aaaaaaaaaaaaaaaaaaaaaaaaaaaaaaaaaaaaaaaaaaaaaaaaaaaaaaaaaaaa\"\n[t");
-            big.push_str(&big.len().to_string());
-            big.push_str("]\n");
-        }
-        big.truncate(big.rfind('[').unwrap());
+        let big = String::from_utf8(corpus::big_toml((2 << 20) - 64)).unwrap();
         // the same document cut down to a little over 2 000 000 bytes, and to half of it
         let cut_at = |n: usize| -> Vec<u8> {
             let t = &big[..n];
